@@ -101,6 +101,9 @@ func main() {
 		{"core/transaction/coinbasetransaction.go", "CoinBaseTransaction.CheckTransactionOutput", "coinbaseCheckTransactionOutput"},
 		{"core/transaction/withdrawfromsidechaintransaction.go", "checkSchnorrWithdrawFromSidechain", "checkSchnorrWithdrawFromSidechain"},
 		{"blockchain/blockvalidator.go", "BlockChain.CheckBlockSanity", "checkBlockSanity"},
+		{"core/transaction/registercrtransaction.go", "RegisterCRTransaction.SpecialContextCheck", "registerCRSpecialContextCheck"},
+		{"core/transaction/inactivearbitratorstransaction.go", "checkCRCArbitratorsSignatures", "checkCRCArbitratorsSignaturesTx"},
+		{"blockchain/txvalidator.go", "checkCRCArbitratorsSignatures", "checkCRCArbitratorsSignaturesBc"},
 		{"core/transaction/returndepositcointransaction.go", "ReturnDepositCoinTransaction.SpecialContextCheck", "returnDepositSpecialContextCheck"},
 	}
 	files := map[string]*ex.File{}
